@@ -1238,7 +1238,7 @@ class InMsg(TlbScheme):
             return cls('msg_discard_fin',
                        in_msg=MsgEnvelope.deserialize(cell_slice.load_ref().begin_parse()),
                        transaction_id=cell_slice.load_uint(64),
-                       transit_fee=cell_slice.load_coins(),
+                       fwd_fee=cell_slice.load_coins(),
                        )
         if tag == '111':
             return cls('msg_discard_tr',
